@@ -361,4 +361,34 @@ def notsNeutralP : List (String × S) → Bool
   | (_, s) :: ps => s.notsNeutral && notsNeutralP ps
 end
 
+/-! ### what a candidate that does not accept leaves behind (used by `failed_candidates_leave_nothing`, Props/C01.lean) -/
+
+/-- replace the value left by every candidate that does not accept -/
+def dropFailed (x : J) (l : List Out) : List Out := l.map (fun o => if passesL o.1 then o else (o.1, x))
+
+theorem outsEvs_dropFailed (x : J) (l : List Out) : outsEvs (dropFailed x l) = outsEvs l := by
+  induction l with
+  | nil => rfl
+  | cons o os ih =>
+    simp only [dropFailed, outsEvs, List.map_cons, List.map_map] at ih ⊢
+    by_cases h : passesL o.1 = true <;> simp [h, ih]
+
+theorem passing_dropFailed (x : J) (l : List Out) : passing (dropFailed x l) = passing l := by
+  induction l with
+  | nil => rfl
+  | cons o os ih =>
+    simp only [dropFailed, List.map_cons] at ih ⊢
+    by_cases h : passesL o.1 = true
+    · simp [passing, h, ih]
+    · simp [passing, h, ih]
+
+theorem firstPass_dropFailed (x : J) (l : List Out) : firstPass (dropFailed x l) = firstPass l := by
+  induction l with
+  | nil => rfl
+  | cons o os ih =>
+    simp only [dropFailed, List.map_cons] at ih ⊢
+    by_cases h : passesL o.1 = true
+    · simp [firstPass, h]
+    · simp [firstPass, h, ih]
+
 end KinModel.Schema
